@@ -88,6 +88,32 @@ func (p *Prog) verifyFunction(fn *ssa.Function, con *Contract) (res *FnResult) {
 	if con != nil {
 		res.Obls = append(res.Obls, p.noReadsObligations(fn, con, res.Fn)...)
 		res.Obls = append(res.Obls, p.onlyWriterObligations(fn, con, res.Fn, e)...)
+		for _, ft := range con.FieldTypes {
+			props := ft.Props
+			if len(props) == 0 {
+				props = con.Props
+			}
+			fld, want := ft.Fields[0], ft.Fields[1]
+			got := "(no such field)"
+			if i := strings.LastIndex(fld, "."); i > 0 {
+				if ty := p.lookupQualifiedType(fld[:i]); ty != nil {
+					if st, ok := ty.Underlying().(*types.Struct); ok {
+						for j := 0; j < st.NumFields(); j++ {
+							if st.Field(j).Name() == fld[i+1:] {
+								got = types.TypeString(st.Field(j).Type(), func(pk *types.Package) string { return pk.Path() })
+							}
+						}
+					}
+				}
+			}
+			o := &Obligation{Name: res.Fn + "#fieldtype:" + fld, Kind: "fieldtype", Fn: res.Fn, Props: props, Solver: "structural", Result: "unsat",
+				Src: "field " + fld + " has type " + want + " (" + ft.Label + ")"}
+			if got != want {
+				o.Result = "sat"
+				o.Src = "field " + fld + " has type " + got + ", the contract rests on " + want + " (" + ft.Label + ")"
+			}
+			res.Obls = append(res.Obls, o)
+		}
 	}
 	// `recoverby H`: panics raised after `defer H(...)` are treated as converted into the
 	// error result. Go's recover() only stops a panic when the DEFERRED function itself
